@@ -11,7 +11,6 @@ package server
 // is decomposed by the independent literal lexer (common_ps_lex_test.go).
 
 import (
-	"bytes"
 	"fmt"
 	"strings"
 	"testing"
@@ -24,12 +23,16 @@ type c16Op struct {
 	K string `json:"k"`           // P prepare | L send_long_data | X execute | R reset | C close
 	S int    `json:"s"`           // statement slot 0..2
 	P int    `json:"p,omitempty"` // parameter index (L)
-	V string `json:"v,omitempty"` // execute variant: ok oknull oknotypes trunc len types cursor
+	V string `json:"v,omitempty"` // execute variant: ok okswap okdbl okT:<fam>,<fam> oknull oknotypes trunc len types cursor
+	E bool   `json:"e,omitempty"` // L: the chunk has no payload (an empty value streamed as long data)
 }
 
 func (o c16Op) String() string {
 	switch o.K {
 	case "L":
+		if o.E {
+			return fmt.Sprintf("L%d.%de", o.S, o.P)
+		}
 		return fmt.Sprintf("L%d.%d", o.S, o.P)
 	case "X":
 		return fmt.Sprintf("X%d:%s", o.S, o.V)
@@ -49,7 +52,10 @@ func (c c16Case) String() string {
 	return strings.Join(s, " ")
 }
 
-var c16Variants = []string{"ok", "oknull", "oknotypes", "trunc", "len", "types", "cursor"}
+// execute variants of the exhaustive alphabet. ok binds (varstring, longlong), okswap
+// (longlong, varstring), okdbl (double, date); random histories also use okT:<fam>,<fam>
+// over all pairs of psFamilies.
+var c16Variants = []string{"ok", "okswap", "okdbl", "oknull", "oknotypes", "trunc", "len", "types", "cursor"}
 
 func c16Pieces(slot int) []string {
 	return []string{fmt.Sprintf("select * from tq%d where x = ", slot), " and y = ", ""}
@@ -59,7 +65,7 @@ func c16Pieces(slot int) []string {
 func c16Alphabet(nslots int) []c16Op {
 	var a []c16Op
 	for s := 0; s < nslots; s++ {
-		a = append(a, c16Op{K: "P", S: s}, c16Op{K: "L", S: s, P: 0}, c16Op{K: "L", S: s, P: 1})
+		a = append(a, c16Op{K: "P", S: s}, c16Op{K: "L", S: s, P: 0}, c16Op{K: "L", S: s, P: 1}, c16Op{K: "L", S: s, P: 0, E: true}, c16Op{K: "L", S: s, P: 1, E: true})
 		for _, v := range c16Variants {
 			a = append(a, c16Op{K: "X", S: s, V: v})
 		}
@@ -102,11 +108,11 @@ func c16Enumerate(nslots, n int, prepFirst bool, emit func(c16Case)) {
 // ---------------------------------------------------------------- reference model
 
 type c16Stmt struct {
-	slot      int
-	open      bool
-	long      [2][]byte
-	hasLong   [2]bool
-	lastTypes []byte // types of the last successful execute that carried them; nil = unknown
+	slot     int
+	open     bool
+	long     [2][]byte
+	hasLong  [2]bool
+	lastFams []string // type families declared by the last successful execute that carried types; nil = unknown
 }
 
 type c16Ref struct {
@@ -128,57 +134,78 @@ type c16Exec struct {
 	payload  []byte
 	wantOK   bool
 	want     []psWant
-	types    []byte // type section sent (nil: none / incomplete)
+	fams     []string // type families declared by a complete type section (nil: none sent)
 	notypes  bool
 	effected string // the variant actually built (a variant that does not apply degrades to ok)
 }
 
+// c16Fams returns the type families a well-formed variant declares for its two parameters.
+func c16Fams(variant string) [2]string {
+	switch {
+	case variant == "okswap":
+		return [2]string{"longlong", "varstring"}
+	case variant == "okdbl":
+		return [2]string{"double", "date"}
+	case strings.HasPrefix(variant, "okT:"):
+		p := strings.Split(variant[4:], ",")
+		if len(p) == 2 {
+			return [2]string{p[0], p[1]}
+		}
+	}
+	return [2]string{"varstring", "longlong"}
+}
+
 func c16BuildExec(id uint32, st *c16Stmt, variant string, opIdx int) c16Exec {
-	strVal := []byte(fmt.Sprintf("s%da", opIdx))
-	intVal := uint64(1000 + opIdx)
 	var hasLong [2]bool
 	var long [2][]byte
-	var lastTypes []byte
+	var lastFams []string
 	if st != nil && st.open {
-		hasLong, long, lastTypes = st.hasLong, st.long, st.lastTypes
+		hasLong, long, lastFams = st.hasLong, st.long, st.lastFams
+	}
+	x := c16Exec{wantOK: true, effected: "ok"}
+	fams := c16Fams(variant)
+	sendTypes := true
+	if variant == "oknotypes" && lastFams != nil {
+		// re-execute without a type section: the values are encoded in the types declared last
+		usable := true
+		for i := 0; i < 2; i++ {
+			if hasLong[i] && lastFams[i] != "blob" {
+				usable = false
+			}
+		}
+		if usable {
+			fams = [2]string{lastFams[0], lastFams[1]}
+			sendTypes = false
+			x.effected = "oknotypes"
+		}
 	}
 	params := make([]mycli.Param, 2)
 	want := make([]psWant, 2)
-	if hasLong[0] {
-		params[0] = mycli.Param{Type: mycli.TBlob, LongData: true}
-		want[0] = psWant{Kind: "bytes", Bytes: long[0]}
-	} else {
-		params[0] = mycli.Param{Type: mycli.TVarString, Raw: mycli.LenEncBytes(strVal)}
-		want[0] = psWant{Kind: "bytes", Bytes: strVal}
+	for i := 0; i < 2; i++ {
+		if hasLong[i] {
+			params[i] = mycli.Param{Type: mycli.TBlob, LongData: true}
+			want[i] = psWant{Kind: "bytes", Bytes: append([]byte{}, long[i]...)}
+			fams[i] = "blob"
+		} else {
+			params[i], want[i] = psFamValue(fams[i], opIdx)
+		}
 	}
-	if hasLong[1] {
-		params[1] = mycli.Param{Type: mycli.TBlob, LongData: true}
-		want[1] = psWant{Kind: "bytes", Bytes: long[1]}
-	} else {
-		params[1] = mycli.Param{Type: mycli.TLongLong, Raw: psLE(8, intVal)}
-		want[1] = psWant{Kind: "int", Int: fmt.Sprint(intVal)}
-	}
-	types := func() []byte { return []byte{params[0].Type, 0, params[1].Type, 0} }
+	x.want = want
+	intVal := uint64(1000 + opIdx)
 	badLen := []byte{0xfc, 0x10, 0x27, 'a', 'b', 'c'} // announces 10000 bytes, carries 3
-	x := c16Exec{wantOK: true, want: want, effected: "ok"}
 	if st == nil || !st.open {
 		x.payload = mycli.BuildExecute(id, 0, params, true)
 		x.wantOK = false
 		return x
 	}
 	switch variant {
+	case "okswap", "okdbl":
+		x.effected = variant
 	case "oknull":
 		if !hasLong[0] {
 			params[0].Null = true
 			want[0] = psWant{Kind: "null"}
 			x.effected = "oknull"
-		}
-	case "oknotypes":
-		if lastTypes != nil && bytes.Equal(lastTypes, types()) {
-			x.payload = mycli.BuildExecute(id, 0, params, false)
-			x.notypes = true
-			x.effected = "oknotypes"
-			return x
 		}
 	case "cursor":
 		x.payload = mycli.BuildExecute(id, 1, params, true)
@@ -211,9 +238,17 @@ func c16BuildExec(id uint32, st *c16Stmt, variant string, opIdx int) c16Exec {
 			params[0] = mycli.Param{Type: mycli.TVarString, Raw: badLen}
 			x.wantOK, x.effected = false, "len"
 		}
+	default:
+		if strings.HasPrefix(variant, "okT:") {
+			x.effected = "okT"
+		}
 	}
-	x.types = types()
-	x.payload = mycli.BuildExecute(id, 0, params, true)
+	if sendTypes {
+		x.fams = []string{fams[0], fams[1]}
+	} else {
+		x.notypes = true
+	}
+	x.payload = mycli.BuildExecute(id, 0, params, sendTypes)
 	return x
 }
 
@@ -319,6 +354,9 @@ func (x *c16Runner) play(cs c16Case) (v c16Verdict) {
 			v.Stats["prepare"]++
 		case "L":
 			chunk := []byte(fmt.Sprintf("ld%dp%d.", i, op.P))
+			if op.E {
+				chunk = []byte{}
+			}
 			if err := c.SendLongData(id, uint16(op.P), chunk); err != nil {
 				v.Harness = "send_long_data: " + err.Error()
 				x.dropConn()
@@ -338,6 +376,9 @@ func (x *c16Runner) play(cs c16Case) (v c16Verdict) {
 				st.long[op.P] = append(append([]byte{}, st.long[op.P]...), chunk...)
 				st.hasLong[op.P] = true
 				v.Stats["long.open"]++
+				if op.E {
+					v.Stats["long.open.empty_chunk"]++
+				}
 			} else {
 				v.Stats["long.unknown"]++
 				if len(uns) > 0 {
@@ -372,7 +413,7 @@ func (x *c16Runner) play(cs c16Case) (v c16Verdict) {
 				}
 				if open {
 					v.Stats["exec.refused.open."+ex.effected]++
-					st.long, st.hasLong, st.lastTypes = [2][]byte{}, [2]bool{}, nil
+					st.long, st.hasLong, st.lastFams = [2][]byte{}, [2]bool{}, nil
 				} else {
 					v.Stats["exec.refused.unknown"]++
 				}
@@ -401,8 +442,11 @@ func (x *c16Runner) play(cs c16Case) (v c16Verdict) {
 			if st.hasLong[0] || st.hasLong[1] {
 				v.Stats["exec.ok.with_long_data"]++
 			}
-			if ex.types != nil {
-				st.lastTypes = ex.types
+			if ex.fams != nil {
+				if st.lastFams != nil && (st.lastFams[0] != ex.fams[0] || st.lastFams[1] != ex.fams[1]) {
+					v.Stats["exec.ok.rebind_other_types"]++
+				}
+				st.lastFams = ex.fams
 			}
 			st.long, st.hasLong = [2][]byte{}, [2]bool{}
 		case "R":
@@ -533,8 +577,24 @@ func (x *c16Runner) shrink(cs c16Case, clause string, at int) (c16Case, string) 
 		for i := 0; i < len(cur.Ops); i++ {
 			o := cur.Ops[i]
 			c := c16Case{Ops: append([]c16Op{}, cur.Ops...)}
-			if o.K == "X" && (o.V == "oknull" || o.V == "oknotypes") {
+			if o.K == "X" && strings.HasPrefix(o.V, "okT:") {
+				// a canonical representative of the two declared families
+				c.Ops[i].V = "okswap"
+				if !try(c) {
+					c = c16Case{Ops: append([]c16Op{}, cur.Ops...)}
+					c.Ops[i].V = "okdbl"
+					if !try(c) {
+						c = c16Case{Ops: append([]c16Op{}, cur.Ops...)}
+						c.Ops[i].V = "ok"
+						try(c)
+					}
+				}
+				continue
+			}
+			if o.K == "X" && (o.V == "oknull" || o.V == "oknotypes" || o.V == "okswap" || o.V == "okdbl") {
 				c.Ops[i].V = "ok"
+			} else if o.K == "L" && o.E {
+				c.Ops[i].E = false
 			} else if o.K == "L" && o.P == 1 {
 				c.Ops[i].P = 0
 			} else {
@@ -566,7 +626,7 @@ func (x *c16Runner) one(cs c16Case) {
 	x.rec.Count("commands", int64(len(cs.Ops)))
 	// non-trivial: the history executed a statement after a refused execute, a reset, a
 	// close or pending long data on the same connection state
-	if v.Stats["exec.ok.ok"]+v.Stats["exec.ok.oknull"]+v.Stats["exec.ok.oknotypes"] > 0 || v.Stats["exec.refused.unknown"] > 0 {
+	if v.Stats["exec.ok.ok"]+v.Stats["exec.ok.oknull"]+v.Stats["exec.ok.oknotypes"]+v.Stats["exec.ok.okswap"]+v.Stats["exec.ok.okdbl"]+v.Stats["exec.ok.okT"] > 0 || v.Stats["exec.refused.unknown"] > 0 {
 		x.rec.Nontrivial(cs.String())
 	}
 	if v.Clause == "" {
@@ -593,8 +653,12 @@ func c16Random(r *kit.Rand, maxLen int) c16Case {
 		if o.K == "P" {
 			prepared[o.S] = true
 		}
-		if o.K == "X" && r.Chance(1, 3) {
+		if o.K == "X" && r.Chance(1, 4) {
 			o.V = "ok"
+		} else if o.K == "X" && r.Chance(1, 3) {
+			o.V = "okT:" + psFamilies[r.Intn(len(psFamilies))] + "," + psFamilies[r.Intn(len(psFamilies))]
+		} else if o.K == "X" && r.Chance(1, 4) {
+			o.V = "oknotypes"
 		}
 		ops = append(ops, o)
 	}
@@ -603,7 +667,7 @@ func c16Random(r *kit.Rand, maxLen int) c16Case {
 
 func TestVerif_C16(t *testing.T) {
 	rec := kit.Start("C16", "exploration",
-		"histories over {prepare, send_long_data(param), execute(ok|oknull|oknotypes|trunc|len|types|cursor), reset, close} x up to 3 statement slots (slot symmetry removed); exhaustive to a length bound plus random histories of up to 8 commands; distinct = histories that executed a statement or addressed an unknown id")
+		"histories over {prepare, send_long_data(param, chunk or empty chunk), execute(ok|okswap|okdbl|okT:<fam>,<fam> over all pairs of 12 type families|oknull|oknotypes|trunc|len|types|cursor), reset, close} x up to 3 statement slots (slot symmetry removed); exhaustive to a length bound plus random histories of up to 8 commands; distinct = histories that executed a statement or addressed an unknown id")
 	defer rec.Finish(t)
 	rec.Assume("reference semantics of MySQL: an execute attempt (successful or refused) and a reset discard the long data of that statement; parameter types persist from the last successful execute that carried them; send_long_data and close are never answered")
 	rec.Assume("an error packet in reply to send_long_data on an unknown statement id is tolerated (counted), a dropped connection on a malformed execute ends the history and is counted, not judged here")
@@ -656,7 +720,7 @@ func TestVerif_C16(t *testing.T) {
 	bounds := []bound{{1, 1, false}, {1, 2, false}, {2, 2, false}, {1, 3, true}}
 	if thorough {
 		bounds = []bound{{1, 1, false}, {1, 2, false}, {2, 2, false}, {3, 3, false}, {1, 3, true}, {1, 4, true}, {1, 5, true},
-			{2, 4, true}, {3, 4, true}, {2, 5, true}, {3, 5, true}, {1, 6, true}}
+			{2, 4, true}, {3, 4, true}, {2, 5, true}}
 	}
 	var exh []string
 	for _, b := range bounds {
